@@ -15,10 +15,23 @@ def run(tier, repo=None, tag="repo"):
     rep.rule("W0", "state shape / recognised idioms", 0)
     F = ir.load("default", repo, tag)
     run_units("C15", specs.COMPOSITES, None, rep, F, lambda k: RULE.get(k, "W0"))
+    # BollingerBands has no SimpleMovingAverage inside: its middle band is StandardDeviation's running mean.  In exact arithmetic that mean is
+    # the window mean (C01-I3), the band reads exactly it (I5), and SimpleMovingAverage's output is the window mean too (I1, ring premises L0):
+    # the three invariants are re-established here, so "BollingerBands.average equals SimpleMovingAverage" holds up to rounding
+    rep.rule("W4", "BollingerBands.average = StandardDeviation's running mean = the window mean = SimpleMovingAverage's output, in exact arithmetic (C01's I1, I3, I5 with the ring-lemma premises)", 3)
+    import rules_c01
+    import symex
+    from infra import Sink
+    from rules_c09 import _Map
+    m4 = _Map(rep, {"I1": "W4", "I3": "W4", "I5": "W4", "L0": "W4"})
+    try:
+        rules_c01.apply(F, m4)
+    except (symex.Unsupported, KeyError, IndexError, TypeError, AttributeError) as e:
+        Sink.bad(m4, "W4", "unrecognised", "window-invariants", "UNRECOGNISED idiom while establishing the window invariants: %r" % (e,))
     rep.configs = ["default"]
     rep.explanation = ("by the modular term match each composite's step is the documented combination of step results of components that are of the public "
                        "type, built by the public constructor with the documented parameter and stepped once per call with the documented series; a user "
-                       "wiring the same public parts runs the same deterministic step functions on the same inputs (bit-identical). NOT decided: "
-                       "BollingerBands.average vs SimpleMovingAverage (different algorithm; numeric agreement)")
+                       "wiring the same public parts runs the same deterministic step functions on the same inputs (bit-identical). BollingerBands.average vs "
+                       "SimpleMovingAverage (different algorithm): equal in exact arithmetic by the window invariants (W4); NOT decided: their numeric agreement within tau(t)")
     rep.assumptions = ["determinism (C05)", "BollingerBands' middle band is StandardDeviation's running mean; its numeric agreement with SimpleMovingAverage is not decided"]
     return rep
